@@ -23,7 +23,7 @@ PROPS = {
     },
     'C04': {
         'modules': ['C04', 'C04Progress'],
-        'families': [('tp', 2000, 60000), ('ep:close', 500, 10000)],
+        'families': [('tp', 2000, 60000), ('ep:close', 500, 10000), ('ep:backpressure', 800, 20000)],
         'rule': 'two real endpoints (client and server) joined by two in-memory pipes: adaptive random schedules of {write data, ping, pong, flush, read, '
                 'close} on both sides x delivery granularity (1 byte .. all) x write-side WouldBlock windows x flush blocks, incl. simultaneous close and '
                 'close with data or pings in flight; then a fair drain phase (both flush and read, drop the transport on ConnectionClosed)',
@@ -223,7 +223,7 @@ PROPS = {
     },
     'C12': {
         'modules': ['C12', 'C12Global'],
-        'families': [('corpus:defects', 0, 0), ('ep:close', 2000, 60000), ('pure:closecode', 1, 1)],
+        'families': [('corpus:defects', 0, 0), ('ep:close', 2000, 60000), ('ep:backpressure', 1500, 40000), ('pure:closecode', 1, 1)],
         'rule': 'close frames with every class of status code (all 65536 through the conversion functions), reasons empty..123 bytes, '
                 'arriving in every connection state, with and without a pending pong',
         'assumptions': [],
